@@ -43,7 +43,7 @@ def field_ranges(af, fmap):
     return out
 
 def base_key(af):
-    return "%d/%d/%d" % (len(af['streams']), af['streams'][0]['check'], len(af['streams'][0]['blocks']))
+    return "%d/%s" % (af['streams'][0]['check'], ";".join(",".join(str(b['did']) for b in s['blocks']) for s in af['streams']))
 
 def crc_group(rngs, s, b, f):
     """(start, end, crc_offset) of the CRC32-protected group the field belongs to"""
@@ -124,9 +124,57 @@ def xz_faults(ctx, D, lz, bases, table, cat, start=0, cli=None, heavy=False):
             return r1
         def run_code(buf):
             return D.decode_stream(bytes(buf), lz.CONCATENATED, out_cap=cap)
-        # sanity: the undamaged file
+        def run_mt(buf, slices=None):
+            return D.decode_stream(bytes(buf), lz.CONCATENATED, mt=2, slices=slices, out_cap=cap)
+        def run_st(buf, slices=None):
+            return D.decode_stream(bytes(buf), lz.CONCATENATED, slices=slices, out_cap=cap)
+        def sliced(api_tag, kind, s, b, f, cls, buf, splits, where):
+            """the same mutant with the input split in two at each of `splits`, and byte by byte, through both stream decoders:
+            the verdict must not depend on how the application cuts its input"""
+            for sp in list(splits) + ["bytewise"]:
+                sl = [1] * len(buf) if sp == "bytewise" else [sp]
+                if sp != "bytewise" and not 0 < sp < len(buf):
+                    continue
+                r1, o1, _, _ = run_mt(buf, sl)
+                J.check("mt/split", bk, kind, s, b, f, cls, r1, o1 == orig, "%s, input split at %s" % (where, sp), bytes(buf).hex() if len(buf) < 600 else None)
+                r2, o2, _, _ = run_st(buf, sl)
+                J.check("code/split", bk, kind, s, b, f, cls, r2, o2 == orig, "%s, input split at %s" % (where, sp), bytes(buf).hex() if len(buf) < 600 else None)
+        # sanity: the undamaged file, also with the input cut in two at EVERY offset
         r, o, _ = run(data)
         J.check("buffer", bk, "none", 0, 0, "", "", r, o == orig, "undamaged")
+        sliced("none", "none", 0, 0, "", "", data, range(1, len(data)), "undamaged")
+        # extents of the Blocks (for the Block-level API)
+        extent = {}
+        for (s_, b_, f_, off_, ln_) in rngs:
+            if b_ > 0:
+                a0, a1 = extent.get((s_, b_), (off_, off_ + ln_))
+                extent[(s_, b_)] = (min(a0, off_), max(a1, off_ + ln_))
+        hascheck = all(st['check'] in (1, 4, 10) for st in af['streams'])
+        def block_api(kind, s, b, f, cls, buf, where):
+            """the damaged Block alone through lzma_block_header_decode + lzma_block_decoder (lzma_block in non-zeroed memory)"""
+            if not hascheck or b == 0 or f == "bh.size" or kind not in ("flip", "over"):
+                return
+            a0, a1 = extent[(s, b)]
+            hs = (buf[a0] + 1) * 4
+            chk = af['streams'][s - 1]['check']
+            r, o, _, _ = D.block_decode(bytes(buf[a0:a0 + hs]), bytes(buf[a0 + hs:a1]), chk, out_cap=cap)
+            code = r.split("_", 1)[1] if r.startswith(("HDR_", "INIT_")) else r
+            same = o == meaning_of[(s, b)]
+            adm = J.admissible(bk, kind, s, b, f, cls) or []
+            J.n += 1
+            ok = any(code == rr and (rr != "STREAM_END" or same == sm) for rr, sm in adm) or (code == "BUF_ERROR" and any(rr != "STREAM_END" for rr, sm in adm))
+            if not ok:
+                succ = code == "STREAM_END"
+                key = "xz:block_api:%s:%s:%s->%s%s" % (kind, f, cls, code, "" if not succ else (":same" if same else ":DIFFERENT-DATA"))
+                if key not in J.seen:
+                    J.seen.add(key)
+                    ctx.violation(key, "Block s%d.b%d alone (lzma_block_header_decode + lzma_block_decoder, lzma_block in non-zeroed memory), base %s, %s of %s (%s) %s: %s%s; the model admits %s" % (
+                        s, b, bk, kind, f, cls, where, r, (" with the Block's data" if same else " with OTHER data") if succ else "", adm), dict(kind="c05", base=bk, bytes=bytes(buf).hex()))
+        meaning_of = {}
+        k_ = 0
+        for si_, s_ in enumerate(af['streams']):
+            for bi_, b_ in enumerate(s_['blocks']):
+                meaning_of[(si_ + 1, bi_ + 1)] = meaning[k_]; k_ += 1
         blocks_out = {}
         bycat = {e['did']: e for e in cat}
         k = 0
@@ -168,6 +216,12 @@ def xz_faults(ctx, D, lz, bases, table, cat, start=0, cli=None, heavy=False):
                         r2, o2, _, _ = run_code(buf)
                         J.check("code", bk, "flip", s, b, f, cls, r2, o2 == orig, "byte %d bit %d" % (off + i, bit), bytes(buf).hex() if len(buf) < 600 else None,
                                 extra_ok=("OUT_FULL",))
+                    if b > 0 and ((i * 8 + bit) % 3 == 0 or f in ("b.check", "b.padding")):
+                        block_api("flip", s, b, f, cls, buf, "byte %d bit %d" % (off + i, bit))
+                    if f == "s.padding":
+                        sliced("flip", "flip", s, b, f, cls, buf, range(off - 1, off + ln + 2), "byte %d bit %d" % (off + i, bit))
+                    elif (i * 8 + bit) % 41 == 0:
+                        sliced("flip", "flip", s, b, f, cls, buf, [off + i, off + i + 1], "byte %d bit %d" % (off + i, bit))
                     if cli is not None and (i * 8 + bit) % cli['every'] == cli['phase']:
                         cli['jobs'].append((bytes(buf), orig, "xz:flip:%s:%s" % (f, cls), J.last_adm))
             # ---------------- overwrites with the CRC32 recomputed
@@ -183,6 +237,7 @@ def xz_faults(ctx, D, lz, bases, table, cat, start=0, cli=None, heavy=False):
                 J.check("code", bk, "over", s, b, f, cls, r2, o2 == orig, where, bytes(buf).hex() if len(buf) < 600 else None)
                 r3, o3, _, _ = D.decode_stream(bytes(buf), lz.CONCATENATED, mt=2, out_cap=cap)
                 J.check("mt", bk, "over", s, b, f, cls, r3, o3 == orig, where, bytes(buf).hex() if len(buf) < 600 else None)
+                block_api("over", s, b, f, cls, buf, where)
                 if cli is not None:
                     cli['jobs'].append((bytes(buf), orig, "xz:over:%s:%s" % (f, cls), J.last_adm))
             S = af['streams'][s - 1]
@@ -267,6 +322,11 @@ def xz_faults(ctx, D, lz, bases, table, cat, start=0, cli=None, heavy=False):
                         if i % 3 == 0:
                             r2, o2, _, _ = run_code(buf)
                             J.check("code", bk, kind, s, b, f, cls, r2, o2 == orig, "%s at %d %s" % (kind, off + i, tag), None, extra_ok=("OUT_FULL",))
+                        if f == "s.padding":
+                            # Stream Padding whose length was damaged, arriving in two pieces cut at every place in and around it
+                            sliced(kind, kind, s, b, f, cls, buf, range(off - 1, off + ln + 3), "%s at %d %s" % (kind, off + i, tag))
+                        elif i % 11 == 0:
+                            sliced(kind, kind, s, b, f, cls, buf, [off + i], "%s at %d %s" % (kind, off + i, tag))
                         if cli is not None and i % cli['every'] == cli['phase']:
                             cli['jobs'].append((bytes(buf), orig, "xz:%s:%s" % (kind, f), J.last_adm))
             # ---------------- the file cut at every length inside the field
@@ -280,6 +340,8 @@ def xz_faults(ctx, D, lz, bases, table, cat, start=0, cli=None, heavy=False):
                 J.check("code", bk, "trunc", s, b, f, adm_w, r2, o2 == orig, "cut at %d" % (off + i))
                 r, o, _ = run(cut)
                 J.check("buffer", bk, "trunc", s, b, f, adm_w, r, o == orig, "cut at %d" % (off + i))
+                if f == "s.padding":
+                    sliced("trunc", "trunc", s, b, f, adm_w, cut, range(off - 1, off + i), "cut at %d" % (off + i))
                 if not orig.startswith(o2):
                     ctx.violation("xz:trunc:output-not-prefix:%s" % f, "cut at %d: the output delivered before the end of input is not a prefix of the data" % (off + i),
                                   dict(kind="c05", base=bk, cut=off + i))
